@@ -815,6 +815,14 @@ theorem insertBlock_none (txt : Str) : ∀ (tbl : Tbl Str), (∀ e ∈ tbl, (sub
   simp [C10.makeDefault_foam_nil]
 
 
+/-- `C10_sd_text` with the header abstract (the kernel must never be asked to evaluate `foamHeader`: `String.toList`
+    on a long literal is slow) -/
+theorem sd_text_aux (H : Str) (d : Entries) (hraw : ∀ txt, insertBlockComments .foam [] txt = H ++ txt)
+    (hrts : ∀ t, removeTrailingSpaces (H ++ t) = H ++ removeTrailingSpaces t) :
+    fmtSD .foam { data := d } = some (H ++ fmtPlain .foam d) := by
+  simp only [fmtSD, hraw, insertIncludes, insertLineComments, List.foldl_nil, hrts]
+  rfl
+
 /-! ## property theorems -/
 
 /-- **C10_sd_text.**  The text the Foam writer produces for an `SDict` without own comments / includes — for EVERY
@@ -823,9 +831,7 @@ theorem insertBlock_none (txt : Str) : ∀ (tbl : Tbl Str), (∀ e ∈ tbl, (sub
     produces for `d` (private keys dropped at every level: `C10.C10_underscore`). -/
 theorem C10_sd_text (d : Entries) : fmtSD .foam { data := d } = some (foamHeaderText ++ fmtPlain .foam d) := by
   rw [foamHeaderText_eq]
-  simp only [fmtSD, C10.C10_banner_raw, insertIncludes, insertLineComments, List.foldl_nil, rts_header]
-  generalize foamHeader = H
-  rfl
+  exact sd_text_aux foamHeader d C10.C10_banner_raw rts_header
 
 /-- the raw text of the data of an SDict, before the comment / include insertion passes -/
 def rawText (s : SD) : Str := fmtEntries .foam 0 (hoistPlaceholders (dropUnderscoreEs .foam s.data))
@@ -955,5 +961,155 @@ theorem C10_sd_writeText (ev : Str → EvalResult) (fs : FS) (target : Comps) (m
     (hf : C10.isFoamPath target = true) (hnew : fs.get (resolveSpelled target) = none) :
     writeText ev fs target mode false (.sd { data := d }) c = .ok (sdText d, c) := by
   simp only [writeText, flavor_foam hf, hnew, Arg.retype, Bool.false_eq_true, if_false, fmtArg, C10_sd_text, sdText]
+
+/-- `SDict(d).dump('x.foam')` into an empty file system, then `DictReader.read('x.foam')`: the file holds the text
+    of `C10_sd_text`, the caller sees `None` and then the SDict of `C10_roundtrip_sd` -/
+theorem C10_sd_api {d : Entries} {c : Counter} {target : Comps} (ev : Str → EvalResult) (H : Hyp d c target)
+    (hf : C10.isFoamPath target = true) :
+    ∃ c', C13.ValidCounter Gen.counterLimit c' ∧
+      apiRun ev { fs := [], c := c } [.dump { data := d } target, .read target {}] =
+        ({ fs := [(target, .native (sdText d))], c := c' },
+         [.done, .data (foamSD (Counter.next Gen.counterLimit c).1 (normEs (dropUnderscoreEs .foam d)))]) := by
+  obtain ⟨c', hv, hread⟩ := readFile_sd ev H
+  have hw := C10_sd_writeText ev [] target ['a'] d c hf (by rfl)
+  refine ⟨c', hv, ?_⟩
+  simp [apiRun, apiStep, writeTo, hw, FS.set, H.hr, C01.fs_get_single, hread]
+
+
+/-! ## non-vacuity -/
+
+/-- `{'a': 1, 's': {'_x': 2, 'y': '2'}, '_top': 'q', 'k': 'x y'}`: a private key nested in a sub-dict, one on the top
+    level, a string leaf that spells a number, a string that needs quotes -/
+def exD : Entries :=
+  [(.str "a".toList, .leaf (.int 1)),
+   (.str "s".toList, .dict [(.str "_x".toList, .leaf (.int 2)), (.str "y".toList, .leaf (.str "2".toList))]),
+   (.str "_top".toList, .leaf (.str "q".toList)),
+   (.str "k".toList, .leaf (.str "x y".toList))]
+
+/-- what comes back: `{'a': 1, 's': {'y': 2}, 'k': 'x y'}` -/
+def exBack : Entries :=
+  [(.str "a".toList, .leaf (.int 1)), (.str "s".toList, .dict [(.str "y".toList, .leaf (.int 2))]),
+   (.str "k".toList, .leaf (.str "x y".toList))]
+
+theorem exD_back : normEs (dropUnderscoreEs .foam exD) = exBack := by decide +kernel
+theorem exBack_dom : DomC01 .foam exBack = true := by decide +kernel
+theorem exBack_count : C02.countQuotedEs (srcOfEs .foam exBack) = 1 := by decide +kernel
+theorem exD_private : ¬ C10.NoUnderscoreEs exD := by
+  simp only [exD, C10.NoUnderscoreEs, C10.NoUnderscoreV]
+  intro h
+  exact h.2.2.2.1.1 (by decide +kernel)
+
+theorem exHyp : Hyp exD none C10.exTarget where
+  dom := by rw [exD_back]; exact exBack_dom
+  cnt := by rw [exD_back, exBack_count]; decide
+  noFF := by decide
+  hc := Or.inl rfl
+  hj := (C10.foamPath_dispatch C10.exTarget_foam.1).1
+  hx := (C10.foamPath_dispatch C10.exTarget_foam.1).2
+  hr := C10.exTarget_foam.2
+
+theorem intRepr_1 : intRepr 1 = ['1'] := by
+  show intRepr (Int.ofNat 1) = _
+  simp [intRepr, natDigits]
+
+theorem exBack_raw : fmtEntries .foam 0 exBack = C01.unlines
+    ["a                             1;",
+     "s",
+     "{",
+     "    y                         2;",
+     "}",
+     "k                             \"x y\";"] := by
+  simp only [exBack, fmtEntries, formatKey, keyStr, formatScalar, intRepr_1, C10.intRepr_2]
+  decide +kernel
+
+/-- the file written for the example: banner, `FoamFile` block, separator line, then the data without the private
+    keys, `'2'` re-typed to `2`, double quotes only -/
+theorem exD_text : sdText exD = foamHeaderText ++ C01.unlines
+    ["a                             1;",
+     "s",
+     "{",
+     "    y                         2;",
+     "}",
+     "k                             \"x y\";"] := by
+  have hu : C10.NoUnderscoreEs exBack := by rw [← exD_back, C10.normEs_drop]; exact C10.C10_underscore _
+  rw [sdText, ← C10.C10_fmtPlain_drop, ← C10.normEs_drop, exD_back, C10.C10_input_unchanged, C10.C10_drop_id _ hu,
+    C10.Foam.hoist_id_f exBack_dom, exBack_raw]
+  exact congrArg (foamHeaderText ++ ·) (by decide +kernel)
+
+/-- the example written to `/w/dict.foam` and read back -/
+theorem exD_roundtrip (ev : Str → EvalResult) :
+    fmtSD .foam { data := normEs exD } = some (sdText exD) ∧
+    ∃ c', readFile ev [(C10.exTarget, .native (sdText exD))] {} none C10.exTarget = .ok (.ok (foamSD 0 exBack) c') ∧
+      fmtSD .foam (foamSD 0 exBack) = some (sdText exD) ∧ dropHeaderEntries (foamSD 0 exBack).data = exBack := by
+  obtain ⟨h1, ⟨c', _, h2⟩, h3, _⟩ := C10_roundtrip_sd ev exHyp
+  obtain ⟨sd, c'', _, h4, h5⟩ := C10_sd_header_once ev exHyp
+  rw [exD_back] at h2 h3
+  refine ⟨h1, c', h2, ?_, h3⟩
+  have e : readFile ev [(C10.exTarget, .native (sdText exD))] {} none C10.exTarget = .ok (.ok (foamSD 0 exBack) c') := h2
+  rw [e] at h4
+  injection h4 with h4
+  injection h4 with h4 _
+  rw [h4]; exact h5
+
+/-! ### the statement as first asked for is false: there is a third header entry -/
+
+/-- remove the block-comment placeholder entries and the `FoamFile` entry only -/
+def dropBlockAndFoamFile (es : Entries) : Entries :=
+  es.filter fun e => !(match e.1 with | .str k => containsPh kwBlock k | _ => false) &&
+    !decide (e.1 = .str "FoamFile".toList)
+
+/-- "after removing the block-comment placeholder entry and the `FoamFile` entry the data read equals the normalised
+    private-key-free dict" is FALSE: the separator line `// * * * … //` of the header is a line comment; the reader
+    (comments on) turns it into a third entry `LINECOMMENTnnnnnn`.  Witness: the empty dict, `SDict({})` written to
+    `/w/dict.foam` — the data read is `{BLOCKCOMMENT000000: …, FoamFile: {…}, LINECOMMENT000000: …}`. -/
+theorem C10_roundtrip_sd_statement_false :
+    ¬ ∀ (ev : Str → EvalResult) (d : Entries) (c : Counter) (target : Comps), Hyp d c target →
+      ∃ sd c', readFile ev [(target, .native (sdText d))] {} c target = .ok (.ok sd c') ∧
+        dropBlockAndFoamFile sd.data = normEs (dropUnderscoreEs .foam d) := by
+  intro h
+  have H : Hyp [] none C10.exTarget :=
+    { dom := (by decide +kernel), cnt := (by decide +kernel), noFF := (by intro e he; cases he), hc := Or.inl rfl,
+      hj := (C10.foamPath_dispatch C10.exTarget_foam.1).1, hx := (C10.foamPath_dispatch C10.exTarget_foam.1).2,
+      hr := C10.exTarget_foam.2 }
+  obtain ⟨sd, c', h1, h2⟩ := h (fun _ => .unsupported) [] none C10.exTarget H
+  obtain ⟨c'', _, h3⟩ := readFile_sd (fun _ => .unsupported) H
+  rw [h3] at h1
+  injection h1 with h1
+  injection h1 with h1 _
+  rw [← h1] at h2
+  have e : dropBlockAndFoamFile (foamSD 0 []).data = [lineEntry 0] := by
+    show List.filter _ (C12.hdrEntry :: foamFileEntry :: lineEntry 0 :: []) = _
+    have b1 : containsPh kwBlock C12.hdrPh = true := C12.hdrPh_block
+    have b3 : containsPh kwBlock (linePh 0) = false := C12W.containsPh_block_line 0
+    simp only [List.filter_cons, C12.hdrEntry, foamFileEntry, lineEntry, b1, b3, List.filter_nil]
+    decide +kernel
+  have e2 : foamSD (Counter.next Gen.counterLimit none).1 (normEs (dropUnderscoreEs .foam [])) = foamSD 0 [] := rfl
+  rw [e2, e] at h2
+  cases h2
+
+/-! ### the hypothesis `NoFoamFileKey` cannot be dropped -/
+
+/-- `{'FoamFile': {'x': 'y'}}` -/
+def exFF : Entries := [(.str "FoamFile".toList, .dict [(.str "x".toList, .leaf (.str "y".toList))])]
+
+/-- the text written for `SDict({'FoamFile': {'x': 'y'}})`: the header, then a second `FoamFile` block -/
+def exFFText : Str :=
+  foamHeaderText ++ (['F', 'o', 'a', 'm', 'F', 'i', 'l', 'e', '\n', '{', '\n', ' ', ' ', ' ', ' ', 'x'] ++ spaces 25 ++
+    ['y', ';', '\n', '}', '\n'])
+
+theorem exFF_text : fmtSD .foam { data := normEs exFF } = some exFFText := by
+  rw [C10_sd_text]
+  exact congrArg (fun t => some (foamHeaderText ++ t)) (by decide +kernel)
+
+/-- reading it: the dict's own `FoamFile` entry has overwritten the header's (same key, written later), at the
+    header's place — nothing is left when the header entries are taken out, although the dict was not empty -/
+theorem exFF_read : (parseNative true [] none exFFText).toOption.map (fun r => r.1.data) =
+    some [C12.hdrEntry, (.str "FoamFile".toList, .dict [(.str "x".toList, .leaf (.str "y".toList))]), lineEntry 0] := by
+  decide +kernel
+
+theorem exFF_lost : dropHeaderEntries [C12.hdrEntry,
+    (.str "FoamFile".toList, .dict [(.str "x".toList, .leaf (.str "y".toList))]), lineEntry 0] = [] ∧
+    normEs (dropUnderscoreEs .foam exFF) = exFF ∧ ¬ NoFoamFileKey exFF := by
+  refine ⟨by decide +kernel, by decide +kernel, by decide⟩
 
 end DictIO.C10sd
